@@ -91,6 +91,9 @@ class H1b(Case):
                Ob.holds("both methods ask the system for propagators with the same (dt, start_time) = (%s, %s): %s vs %s"
                         % (dt, t0, sys_a.calls, sys_b.calls), sys_a.calls == [(dt, t0)] and sys_b.calls == [(dt, t0)],
                         key="system receives dt and start_time"),
+               Ob.holds("with the default TempoParameters / compute_dynamics arguments both methods ask the system for propagators "
+                        "with the same integration settings (subdiv_limit, epsrel): %s vs %s" % (sys_a.calls_full, sys_b.calls_full),
+                        sys_a.calls_full == sys_b.calls_full, key="same propagator integration settings"),
                Ob.holds("same time labels", list(times) == list(dyn._times) and list(times) == [t0 + k * dt for k in range(N + 1)],
                         key="time labels")]
         obs += [Ob.eq("step %d" % n, ts[n], st[n]) for n in range(N + 1)]
